@@ -98,6 +98,32 @@ pub fn run_impl(h: &History, mut visit: impl FnMut(usize, &Graph)) -> Vec<ImplSt
     out
 }
 
+/// like `run_impl`, but an update that panics does not end the history (the server catches the panic and keeps
+/// serving): `visit` is called after every step that did not panic, with `dirty` = some note's latest update
+/// panicked and it has not been updated successfully since (its tree may be half built)
+pub fn run_impl_resilient(h: &History, mut visit: impl FnMut(usize, &Graph, bool)) {
+    let state: HashMap<String, String> = h.import.iter().cloned().collect();
+    let opts = MarkdownOptions { refs_extension: h.ext.clone() };
+    let Ok(mut graph) = dump::catch(|| Graph::import(&state, opts)) else { return };
+    visit(0, &graph, false);
+    let mut broken: std::collections::HashSet<String> = Default::default();
+    for (i, (k, t)) in h.steps.iter().enumerate() {
+        let key = Key::from_file_name(k);
+        let r = dump::catch(|| {
+            graph.update_key(key.clone(), t);
+        });
+        match r {
+            Err(_) => {
+                broken.insert(key.to_string());
+            }
+            Ok(()) => {
+                broken.remove(&key.to_string());
+                visit(i + 1, &graph, !broken.is_empty());
+            }
+        }
+    }
+}
+
 pub struct Diff {
     pub step: usize,
     pub part: String,
